@@ -305,10 +305,12 @@ def check(run, repo):
         ok = got.approx(want)
         dev = abs(got.v / want.v - 1) if want.v != 0 else abs(got.v)
         tol = 2 * (got.rel() + want.rel())
+        import math
         run.check(ok, rule, name, key,
                   '%s: table value %.10g vs definition %.10g (relative deviation %.2e, allowed by '
                   'literal roundings %.2e)' % (why, float(got.v), float(want.v), float(dev), float(tol)),
                   um if node is unit_node else table_mod.get(id(node), m), node,
+                  sig='relative deviation of the order 1e%d' % (round(math.log10(float(dev))) if dev else -99),
                   sample={'relation': key, 'table': float(got.v), 'definition': float(want.v),
                           'rel_dev': float(dev), 'tol': float(tol)})
 
